@@ -150,6 +150,13 @@ def _pick(seq, i):
   raise Assume()
 
 
+def _concretize(i, lo, hi):
+  for c in range(lo, hi + 1):
+    if i == c:
+      return c
+  raise Assume()
+
+
 def apply_op(op, root, nodes, t, i, val, v2=0):
   """Applies op on nodes[t] (or on the root with a deep path ending at nodes[t]); i selects index/key.
   Returns a dict(result=..., rebound=<object the name refers to after an augmented assignment>)."""
@@ -168,7 +175,9 @@ def apply_op(op, root, nodes, t, i, val, v2=0):
       root.rebind({path: val})
     else:
       other = nodes[0]
-      k0 = list(other.sym_keys())[0]
+      ks = list(other.sym_keys())
+      leafs = [k for k in ks if not isinstance(other.sym_getattr(k), pg.Symbolic)]
+      k0 = (leafs or ks)[0]
       p0 = str(pg.KeyPath(k0, other.sym_path))
       if p0 == path or path.startswith(p0) or p0.startswith(path):
         raise Assume()
@@ -178,6 +187,7 @@ def apply_op(op, root, nodes, t, i, val, v2=0):
     n = len(node)
     if op not in LIST_OPS:
       raise Assume()
+    i = _concretize(i, -n - 2, n + 2)     # paths are formatted from indices: keep them concrete
     if op == 'setitem':
       if not -n <= i < n:
         raise Assume()
